@@ -12,6 +12,9 @@ type RouteCase struct {
 	DispN      int         `json:"dispN"` // distinct plugin names
 	JitterUs   int         `json:"jitterUs"`
 	Seed       int64       `json:"seed"`
+	// WrapDispense (mux): before the round the plugin-side broker's ID counter is moved to just below the
+	// uint32 wrap, so that the round's dispenses reserve MaxUint32, 0, 1, ...
+	WrapDispense bool `json:"wrapDispense,omitempty"`
 }
 
 type RouteItem struct {
